@@ -152,8 +152,32 @@ func c02Env(p *Prepared, f *FaultSpec) (*Env, *faultObs) {
 		if prevBefore != nil {
 			prevBefore(p, outDir)
 		}
+		if f != nil && f.Kind == "obstruct" {
+			obstruct(p, outDir, f)
+		}
 	}
 	return env, obs
+}
+
+// obstruct makes one output path unwritable before the run: something of the wrong type sits
+// where the entry must go (Arg 0), or a regular file sits where its parent directory must go
+// (Arg 1). Stream names the entry (path relative to the output base).
+func obstruct(p *Prepared, outDir string, f *FaultSpec) {
+	base := filepath.Join(outDir, p.OutBase)
+	target := filepath.Join(base, filepath.FromSlash(f.Stream))
+	if f.Arg == 1 {
+		parent := filepath.Dir(target)
+		os.MkdirAll(filepath.Dir(parent), 0755)
+		os.WriteFile(parent, []byte("in the way"), 0644)
+		return
+	}
+	os.MkdirAll(filepath.Dir(target), 0755)
+	if p.Dirs[f.Stream] {
+		os.WriteFile(target, []byte("in the way"), 0644)
+	} else {
+		os.MkdirAll(target, 0755)
+		os.WriteFile(filepath.Join(target, "occupant"), []byte("x"), 0644)
+	}
 }
 
 // restoreSource re-creates source files a shrink/remove fault of an earlier execution damaged.
@@ -172,6 +196,12 @@ func restoreSource(p *Prepared) {
 }
 
 func faultClass(f *FaultSpec) string {
+	if f.Kind == "obstruct" {
+		if f.Arg == 1 {
+			return "obstruct/parent-is-a-file"
+		}
+		return "obstruct/wrong-type-in-place"
+	}
 	st := "data"
 	if strings.HasSuffix(f.Stream, ":0") {
 		st = "control"
@@ -241,7 +271,7 @@ var lockPhaseCases = []Case{
 }
 
 func modeC02() {
-	res.Rule = "for each workload the fault-free run yields the byte length of every stream direction; then one execution per (stream direction, byte position, fault kind) with the fault armed exactly there - peer close with code 0, abrupt loss, cancel of sender, cancel of receiver, bit flip of the byte, source shrink/removal - each at deviation bound 0 and a stride of positions at bound 1; non-trivial = the fault fired; distinct by (workload, fault)"
+	res.Rule = "for each workload the fault-free run yields the byte length of every stream direction; then one execution per (stream direction, byte position, fault kind) with the fault armed exactly there - peer close with code 0, abrupt loss, cancel of sender, cancel of receiver, bit flip of the byte, source shrink/removal - each at deviation bound 0 and a stride of positions at bound 1; plus every output path obstructed before the run (wrong type in place / regular file in place of the parent); non-trivial = the fault fired; distinct by (workload, fault)"
 	thorough := vlib.F.Tier == "thorough"
 	st := newStats()
 	budget := 170 * time.Second
@@ -330,6 +360,52 @@ func modeC02() {
 			}
 		}
 		os.RemoveAll(p.SrcRoot)
+	}
+	// Obstructed output paths: for every entry of a tree with files, nested files and empty
+	// directories, something of the wrong type in its place or a regular file in place of its
+	// parent; both root-directory modes, resume on and off.
+	for _, nr := range []bool{true, false} {
+		for _, rs := range []bool{true, false} {
+			c := Case{Tree: []Entry{{Path: "a", Size: 4}, {Path: "hollow", Size: -1}, {Path: "d/x", Size: 5}, {Path: "d/sub", Size: -1}, {Path: "d/sub2/deep", Size: -1}},
+				Chunk: 4, Streams: 1, Conns: 1, Resume: rs, NoRootDir: nr}
+			p, err := prepare(c)
+			if err != nil {
+				res.InfraError("prepare: %v", err)
+				continue
+			}
+			var rels []string
+			for rel := range p.Files {
+				rels = append(rels, rel)
+			}
+			for rel := range p.Dirs {
+				rels = append(rels, rel)
+			}
+			sort.Strings(rels)
+			for _, rel := range rels {
+				for arg := 0; arg <= 1; arg++ {
+					if arg == 1 && !strings.Contains(strings.TrimPrefix(rel, p.OutBase), "/") {
+						continue
+					}
+					f := FaultSpec{Stream: rel, Kind: "obstruct", Arg: arg}
+					job++
+					if !vlib.MineKey("obstruct|" + c.String() + f.String()) {
+						continue
+					}
+					env, _ := c02Env(p, &f)
+					e := &vrt.Explorer{Cfg: c02Cfg(), Bound: 1, Deadline: deadline, Root: func() { runTransfer(p, env) }}
+					e.Visit = func(x *vrt.Exec) bool {
+						nfired++
+						res.Nontrivial(fmt.Sprintf("obstruct|%s|%s|%x", c.String(), f, x.Trace()))
+						checkC02(p, &f, x, last)
+						return true
+					}
+					e.Run()
+					st.add(e)
+					res.SampleSpread(int64(job), map[string]any{"workload": c.String(), "fault": f.String()})
+				}
+			}
+			os.RemoveAll(p.SrcRoot)
+		}
 	}
 	// Lock-level phase: the same faults on a small two-file workload with mutex acquisitions as
 	// scheduling points, so that check-then-act sequences inside the receiver's and sender's
